@@ -136,7 +136,7 @@ def is_num(t):
 class Ctx:
     """specification context bound to the executor that ran the code: sin/cos of a specification angle is the executor's table variable (Ackermannised, shared with the code) when
     symbolic and the libm value on numeric replay; sqrt(X) is a specification-side variable L with L >= 0, L*L == X (hypotheses collected in .hyps)"""
-    def __init__(s, ex): s.ex = ex; s.hyps = []; s.sq = {}
+    def __init__(s, ex): s.ex = ex; s.hyps = []; s.sq = {}; s.links = []
     def _f(s, fn, x):
         x = rv(x)
         if is_num(x): return z3.RealVal(repr(getattr(math, fn)(float(z3val_to_fraction(z3.simplify(x))))))
@@ -145,18 +145,28 @@ class Ctx:
     def cos(s, x): return s._f('cos', x)
     @property
     def pi(s): return realtrig.real_pi(s.ex)
-    def sqrt(s, X):
+    def sqrt(s, X, share=False):
+        """share=True: when the code itself took the square root of a polynomial identical to X (normal forms compared), use that variable y (y >= 0, y*y == its argument by the executor's
+        axiom); the identification 'argument == X' is recorded in .links and discharged by the solver as an obligation of its own"""
         X = z3.simplify(rv(X))
         if is_num(X): return z3.RealVal(repr(math.sqrt(max(0.0, float(z3val_to_fraction(X))))))
+        if share:
+            kx = realtrig.poly_of(X).key()
+            for arg, y in getattr(s.ex, 'sqrt_log', []):
+                if realtrig._find_ite(arg) is None and realtrig.poly_of(z3.simplify(arg)).key() == kx:
+                    if not any(l[0] is y for l in s.links): s.links.append((y, arg, X))
+                    return y
         k = X.sexpr()
         if k not in s.sq:
             L = z3.Real('spec!sqrt%d' % len(s.sq)); s.sq[k] = L; s.hyps += [L >= 0, L * L == X]
         return s.sq[k]
-    def unit(s, v):
-        """v/|v| as specification-side variables n with n_j * |v| == v_j (numeric on replay)"""
-        v = [z3.simplify(rv(x)) for x in v]; L = s.sqrt(norm2(v))
+    def link_goals(s): return [('sqrt-link[%s]: argument == specification polynomial' % y, REq(arg, X)) for y, arg, X in s.links]
+    def unit(s, v, share=False):
+        """v/|v|: specification-side variables n with n_j * |v| == v_j (numeric on replay); share=True and the code took sqrt(|v|^2): v_j * (1/y)"""
+        v = [z3.simplify(rv(x)) for x in v]; L = s.sqrt(norm2(v), share)
         if all(is_num(x) for x in v):
             l = float(z3val_to_fraction(L)); return [z3.RealVal(repr(float(z3val_to_fraction(x)) / l)) if l else x for x in v]
+        if share and any(l[0] is L for l in s.links): return [x * (ONE / L) for x in v]
         k = 'unit:' + ' '.join(x.sexpr() for x in v)
         if k not in s.sq:
             n = [z3.Real('spec!n%d_%d' % (len(s.sq), j)) for j in range(len(v))]; s.sq[k] = n; s.hyps += [nj * L == x for nj, x in zip(n, v)]
@@ -386,18 +396,18 @@ def job_orientation(t):
             A, argt = inv_call(T.ex, 'acos'); return T.cos(A), T.sin(A), argt[0]
         def shape(i, o, T):
             N, Up = i; cA, sA, arg = acos_parts(i, T)
-            return mat_goals('orientation==Rodrigues(A,unit(Up x N))', M4of(o[0]), embed(rodrigues(cA, sA, T.unit(cross(Up, N))))) + [('acos.arg==N.Up', REq(arg, dot(N, Up)))]
+            return mat_goals('orientation==Rodrigues(A,unit(Up x N))', M4of(o[0]), embed(rodrigues(cA, sA, T.unit(cross(Up, N), share=True)))) + [('acos.arg==N.Up', REq(arg, dot(N, Up)))] + T.link_goals()
         weak = lambda i: [norm2(cross(i[1], i[0])) > 0, z3.Not(near(i))]
         lagr = lambda i: [norm2(cross(i[1], i[0])) == 1 - dot(i[0], i[1]) * dot(i[0], i[1])]      # instance of lemmas.orientation.lagrange for unit inputs
         full = lambda i: [unit3(i[0]), unit3(i[1])] + weak(i) + lagr(i)
         res = chk(S, U, 'orientation_' + t, shape, weak, side=False, solver='z3', bounds='A = acos(N.Up); all N, Up with Up x N != 0, not within epsilon of each other (component-wise)',
-                  mutant=lambda i, o, T: [('opposite-sense', REq(rv(o[0][1]), embed(rodrigues(acos_parts(i, T)[0], -acos_parts(i, T)[1], T.unit(cross(i[1], i[0]))))[1][0]))])
+                  mutant=lambda i, o, T: [('opposite-sense', REq(rv(o[0][1]), embed(rodrigues(acos_parts(i, T)[0], -acos_parts(i, T)[1], T.unit(cross(i[1], i[0]), share=True)))[1][0]))])
         def trig(i, o, T):
             cA, sA, arg = acos_parts(i, T); return [('cos(A)==N.Up', REq(cA, dot(i[0], i[1]))), ('sin(A)>=0', RGoal('ge', sA, ZERO))]
         chk(S, U, 'orientation_' + t, trig, full, side=False, witness=False, solver='z3', name='c09.orientation_%s.angle' % t, bounds='unit Normal, unit Up, not parallel, not within epsilon')
         if res is not None:
             prove_sides(S, U, 'orientation_' + t, res, 'c09.orientation_' + t, lambda kind, d: full(res.ins) if 'acos' in d else weak(res.ins), pre_fn=full)
-        chk(S, U, 'orientation_' + t, lambda i, o, T: mat_goals('orientation(N,Up)==I', M4of(o[0]), ident(4)), lambda i: [near(i)], name='c09.orientation_%s.near' % t, side=False,
+        chk(S, U, 'orientation_' + t, lambda i, o, T: mat_goals('orientation(N,Up)==I', M4of(o[0]), ident(4)), lambda i: [near(i)], name='c09.orientation_%s.near' % t, side=False, solver='z3',
             bounds='Normal within epsilon of Up (component-wise): identity')
     return run
 def job_lemmas(S):
@@ -435,11 +445,53 @@ def job_axisanglematrix(t):
         chk(S, U, 'extractRot_' + t, spece, bounds='all M: upper-left 3x3 block, identity elsewhere')
     return run
 
+def flat(Mrows):
+    """rows[r][c] -> column-major list"""
+    return [rv(Mrows[r][c]) for c in range(len(Mrows[0])) for r in range(len(Mrows))]
+def job_axisangle(t):
+    """axisAngle(R) returns (axis, angle) with axisAngleMatrix(axis, angle) == R for every rotation R = Rodrigues(c, s, n) outside the code's 'near symmetrical' band; exact half turns and the identity"""
+    def run(S):
+        eps = eps_of(t) * 100
+        c, s_ = z3.Reals('rc rs'); n = list(z3.Reals('rn0 rn1 rn2')); tr = list(z3.Reals('rt0 rt1 rt2'))
+        R = rodrigues(c, s_, n); Min = flat([R[r] + [tr[r]] for r in range(3)] + [[ZERO, ZERO, ZERO, ONE]])
+        rot = [c * c + s_ * s_ == 1, norm2(n) == 1]
+        generic = z3.Or(*[absr(2 * s_ * n[k]) >= eps for k in range(3)])
+        def spec(i, o, T):
+            ax = [rv(x) for x in o[0]]; an = rv(o[1][0])
+            g = mat_goals('axisAngleMatrix(axisAngle(R))==R', [row[:3] for row in M4of(o[2])[:3]], [row[:3] for row in M4of(i[0])[:3]])
+            return g + [('angle>=0', RGoal('ge', an, ZERO)), ('angle<=pi', RGoal('le', an, T.pi)), ('|axis|==1', REq(norm2(ax), ONE))] + [('axis||n[%d,%d]' % (a, b), REq(ax[a] * n[b], ax[b] * n[a])) for a in range(3) for b in range(a + 1, 3)]
+        for sg, cond in (('s>0', s_ > 0), ('s<0', s_ < 0)):
+            chk(S, U, 'axisAngle_' + t, spec, lambda i, cond=cond: rot + [generic, cond], ins=[Min], name='c09.axisAngle_%s.generic.%s' % (t, sg), solver='z3', timeout=S.cap(60, 180),
+                bounds='R = Rodrigues(c, s, n), c^2 + s^2 = 1, |n| = 1, some |2 s n_k| >= 100 epsilon; ' + sg)
+        # exact half turn: R = 2 n n^T - I
+        H = [[2 * n[r] * n[k] - (ONE if r == k else ZERO) for k in range(3)] for r in range(3)]; Hin = flat([H[r] + [tr[r]] for r in range(3)] + [[ZERO, ZERO, ZERO, ONE]])
+        def spech(i, o, T):
+            ax = [rv(x) for x in o[0]]
+            return [('angle==pi', REq(rv(o[1][0]), T.pi))] + [('axis_%d*axis_%d==n_%d*n_%d' % (a, b, a, b), REq(ax[a] * ax[b], n[a] * n[b])) for a in range(3) for b in range(a, 3)]
+        chk(S, U, 'axisAngle_' + t, spech, lambda i: [norm2(n) == 1], ins=[Hin], name='c09.axisAngle_%s.halfturn' % t, solver='z3', timeout=S.cap(60, 180), bounds='R = 2 n n^T - I, |n| = 1: angle pi, axis = +-n')
+        Iin = flat([[ONE if r == k else (tr[r] if (k == 3 and r < 3) else ZERO) for k in range(4)] for r in range(4)])
+        chk(S, U, 'axisAngle_' + t, lambda i, o, T: [('angle==0', REq(rv(o[1][0]), ZERO))] + vec_goals('axis==(1,0,0)', o[0], [ONE, ZERO, ZERO]) + mat_goals('axisAngleMatrix==I', M4of(o[2]), ident(4)), None, ins=[Iin],
+            name='c09.axisAngle_%s.identity' % t, solver='z3', bounds='R = I (any translation)')
+    return run
+def job_interpolate(t):
+    def run(S):
+        m1 = [z3.Real('p%d' % k) if k % 4 != 3 else (ONE if k == 15 else ZERO) for k in range(16)]; m2 = [z3.Real('q%d' % k) for k in range(16)]
+        chk(S, U, 'interpolate_' + t, lambda i, o, T: mat_goals('interpolate(m1,m2,0)==m1', M4of(o[0]), M4of(i[0])), None, ins=[m1, m2, [ZERO]], name='c09.interpolate_%s.delta0' % t, solver='z3', timeout=S.cap(60, 180),
+            bounds='delta = 0: all affine m1 (last row 0 0 0 1), all m2')
+        c, s_ = z3.Reals('rc rs'); n = list(z3.Reals('rn0 rn1 rn2')); t1 = list(z3.Reals('s0 s1 s2')); t2 = list(z3.Reals('t0 t1 t2'))
+        R = rodrigues(c, s_, n); eps = eps_of(t) * 100
+        T1 = flat(translation(t1)); M2 = flat([R[r] + [t2[r]] for r in range(3)] + [[ZERO, ZERO, ZERO, ONE]])
+        generic = z3.Or(*[absr(2 * s_ * n[k]) >= eps for k in range(3)])
+        for sg, cond in (('s>0', s_ > 0), ('s<0', s_ < 0)):
+            chk(S, U, 'interpolate_' + t, lambda i, o, T: mat_goals('interpolate(m1,m2,1)==m2', M4of(o[0]), M4of(i[1])), lambda i, cond=cond: [c * c + s_ * s_ == 1, norm2(n) == 1, generic, cond], ins=[T1, M2, [ONE]],
+                name='c09.interpolate_%s.delta1.%s' % (t, sg), solver='z3', timeout=S.cap(60, 180), bounds='delta = 1: m1 = translation, m2 = translation * Rodrigues(c,s,n) outside the near-symmetrical band; ' + sg)
+    return run
+
 def jobs(tier):
     J = []
     for t in FT:
         J += [('elementary_' + t, job_elementary(t)), ('rna_' + t, job_rna(t)), ('transform2_' + t, job_transform2(t)), ('scalebias_' + t, job_scalebias(t)), ('2d_' + t, job_2d(t)), ('rotvec_' + t, job_rotvec(t)),
-              ('orientation_' + t, job_orientation(t)), ('axisanglematrix_' + t, job_axisanglematrix(t))]
+              ('orientation_' + t, job_orientation(t)), ('axisanglematrix_' + t, job_axisanglematrix(t)), ('axisangle_' + t, job_axisangle(t)), ('interpolate_' + t, job_interpolate(t))]
         for cfg in ('RH', 'LH'):
             J += [('lookat_%s_%s' % (cfg, t), job_lookat(t, cfg)), ('lookat_dispatch_%s_%s' % (cfg, t), job_lookat_dispatch(t, cfg))]
     J.append(('lemmas', job_lemmas))
